@@ -172,18 +172,22 @@ StepExit ==
 StepStart ==
   /\ Ev.a = "start"
   /\ LET n == Ev.n
-         bad == ~Ev.err /\ ResolveBad(nst[n], Ev.idx, Ev.version)
-         s == IF Ev.err THEN nst[n] ELSE Resolve(nst[n], Ev.idx, Ev.version) IN
+         (* nocheck: a member of a multi-process cluster reports its state while it may already be
+            applying entries replicated by the leader: the sample is not a quiescent observation *)
+         nocheck == "nocheck" \in DOMAIN Ev
+         bad == ~Ev.err /\ ~nocheck /\ ResolveBad(nst[n], Ev.idx, Ev.version)
+         s == IF Ev.err \/ nocheck THEN nst[n] ELSE Resolve(nst[n], Ev.idx, Ev.version) IN
      IF Ev.err
      THEN /\ nst' = nst
           /\ viol' = viol \cup NTags({"C08", "C07"}, n, "node failed to start")
      ELSE /\ nst' = [nst EXCEPT ![n] = [s EXCEPT !.up = TRUE, !.pend = 0,
-                                          !.len = (IF s.unknown THEN Ev.version ELSE s.len),
-                                          !.idx = (IF s.unknown THEN Ev.idx ELSE s.idx), !.unknown = FALSE]]
+                                          !.len = (IF s.unknown /\ ~nocheck THEN Ev.version ELSE s.len),
+                                          !.idx = (IF s.unknown /\ ~nocheck THEN Ev.idx ELSE s.idx),
+                                          !.unknown = (IF nocheck THEN s.unknown ELSE FALSE)]]
           /\ viol' = viol
                \cup (IF bad THEN NTags({"C07"}, n, "state after the crash is neither the state before nor after the interrupted write") ELSE {})
-               \cup (IF ~s.unknown /\ Ev.idx # s.idx THEN NTags({"C08", "C07"}, n, "applied index after restart differs from the persisted one") ELSE {})
-               \cup (IF ~s.unknown /\ Ev.version # s.len THEN NTags({"C08", "C07", "C05"}, n, "version after restart differs from the persisted one") ELSE {})
+               \cup (IF ~nocheck /\ ~s.unknown /\ Ev.idx # s.idx THEN NTags({"C08", "C07"}, n, "applied index after restart differs from the persisted one") ELSE {})
+               \cup (IF ~nocheck /\ ~s.unknown /\ Ev.version # s.len THEN NTags({"C08", "C07", "C05"}, n, "version after restart differs from the persisted one") ELSE {})
   /\ UNCHANGED <<log, hmap, hroot, hyps, hmaps, reopened, dumps, nacked, lost, blist>>
 
 StepStop ==
